@@ -335,15 +335,27 @@ class DefaultOperatorResolver(OperatorResolver):
             )
 
         def power(arg: OrderedSet[Term], power: OrderedSet[Term]) -> OrderedSet[Term]:
-            power_term = next(iter(power))
+            power_term = next(iter(power), None)
+            power_value = None
             if (
-                not len(power_term.factors) == 1
-                or not power_term.factors[0].token
-                or power_term.factors[0].token.kind is not Token.Kind.VALUE
-                or not isinstance(ast.literal_eval(power_term.factors[0].expr), int)
+                power_term is not None
+                and len(power) == 1
+                and len(power_term.factors) == 1
+                and power_term.factors[0].token
+                and power_term.factors[0].token.kind is Token.Kind.VALUE
+            ):
+                try:
+                    power_value = ast.literal_eval(power_term.factors[0].expr)
+                except (SyntaxError, ValueError):
+                    power_value = None
+            if (
+                power_term is None
+                or not isinstance(power_value, int)
+                or isinstance(power_value, bool)
+                or power_value < 1
             ):
                 raise exc_for_token(
-                    power_term.factors[0].token or Token(),
+                    (power_term.factors[0].token if power_term else None) or Token(),
                     "The right-hand argument of `**` must be a positive integer.",
                 )
             return OrderedSet(
